@@ -97,6 +97,20 @@ theorem pending_never_reported (cap : Nat) (tr : List (SendOp × SendObs)) (s : 
 example : ((freshRanges exTr).filter (fun r => decide (r.1 ≤ 7 ∧ 7 < r.2))).length = 0 :=
   pending_never_reported 10 exTr exS exTr_ok exTr_noForget 7 (by decide)
 
+/-- "Exactly": an offset has been reported as fresh once if it has ever been offered (is not `Pending`
+any more), and never otherwise. -/
+theorem fresh_exactly_once_offered (cap : Nat) (tr : List (SendOp × SendObs)) (s : SendSpec)
+    (h : Trace.Ok (SendSpec.init cap) tr s) (hnf : NoForget tr) (x : Nat) :
+    ((freshRanges tr).filter (fun r => decide (r.1 ≤ x ∧ x < r.2))).length =
+      if s.colour x = .pending then 0 else 1 := by
+  rcases trace_fresh_exact h (fun _ => rfl) hnf x with ⟨h1, h2⟩ | ⟨h1, h2⟩
+  · rw [if_pos h1]; exact h2
+  · rw [if_neg h1]; exact h2
+
+example : ((freshRanges exTr).filter (fun r => decide (r.1 ≤ 3 ∧ 3 < r.2))).length =
+    if exS.colour 3 = .pending then 0 else 1 :=
+  fresh_exactly_once_offered 10 exTr exS exTr_ok exTr_noForget 3
+
 /-- The `fresh` flag of an answer says exactly whether the offered bytes were `Pending`. -/
 theorem fresh_flag_iff_pending (s : SendSpec) (pred : Nat → Option Nat) (flow a b : Nat) (fresh : Bool)
     (s' : SendSpec) (hs : stepOk s (.pick pred flow) (.range a b fresh) s') :
